@@ -17,7 +17,7 @@ import itertools
 
 DEFAULT_FEAT = dict(
     subtypes=True, constants=True, neg=True, equality=True, numeric=True, when=True, forall_eff=True,
-    or_pre=False, forall_pre=False, bare_pre=False, nested_numeric=False, nested_cond=False,   # nested / quantified / unwrapped preconditions
+    or_pre=False, forall_pre=False, bare_pre=False, nested_numeric=False, nested_cond=False, join_names=False,   # nested / quantified / unwrapped preconditions
     cond_numeric=True,                       # numeric comparisons inside when/forall conditions
     child_first_types=False,                 # D10 finding profile
     repeated_call_objects=True, long_names=False,
@@ -82,6 +82,10 @@ def gen_domain(t, feat=None, multi_agent=False):
         if long_names:
             npar = 4 + t.draw(6)  # long parameter lists (an exported :parameters line of several hundred characters)
             params = [(f"?a-long-parameter-name-{j}", t.pick(tnames)) for j in range(npar)]
+        elif f.get("join_names") and t.draw(3):
+            # interchangeable arguments: at least two parameters of one type (the problem's objects get that type too)
+            npar = max(npar, 2)
+            params = [(f"?x{j}", [n for n in tnames if n != "agent"][0]) for j in range(npar)]
         else:
             params = [(f"?x{j}", t.pick(tnames)) for j in range(npar)]
         if multi_agent:
@@ -300,8 +304,15 @@ def gen_problem(t, D, feat=None, agents=0):
     nobj = 2 + t.draw(max(1, f["max_objects"] - 1))
     if D["constants"] and not agents and t.chance(1, 12):
         nobj = 0  # every individual is a domain constant: the problem declares no objects at all
-    for i in range(nobj):
-        objs[onames[i]] = t.pick(names)
+    one_type = None
+    if f.get("join_names"):
+        # names whose concatenations coincide under the usual separators: (a x x_x) / (a x_x x), (a x x-x) / (a x-x x)
+        # ... any key built by joining a call's tokens with '_', '-' or nothing confuses such calls; the objects get
+        # one type so that they are interchangeable as arguments
+        onames = t.shuffle(["x", "x_x", "x-x", "x_x_x", "x-x-x", "xx", "x_x-x"])
+        one_type = names[0]
+    for i in range(min(nobj, len(onames))):
+        objs[onames[i]] = one_type if one_type and t.draw(4) else t.pick(names)
     allobj = {**objs, **D["constants"]}
     facts = set()
     for p, sig in D["predicates"].items():
